@@ -16,8 +16,8 @@ EXTENDS Naturals, Integers, Sequences, FiniteSets, TLC
 CONSTANTS KeepHist
 
 NoSave == [on |-> FALSE]
-U == "U"
-F == "F"
+U == -1
+F == -2
 
 VARIABLES
     dims,      \* sequence of [name, len]            (len 0 = unlimited)
@@ -66,26 +66,28 @@ InDef == mode = "def"
 (***************************************************************************)
 (* define-mode operations; rc is the documented error or NC_NOERR          *)
 (***************************************************************************)
-DefDimRc(name, len) ==
-    IF ~InDef THEN "NC_ENOTINDEFINE"
-    ELSE IF len = 0 /\ HasUnlim THEN "NC_EUNLIMIT"
-    ELSE IF IdxOf(dims, name) # 0 THEN "NC_ENAMEINUSE"
-    ELSE "NC_NOERR"
+(* where several errors apply and no precedence is documented, any of them is acceptable *)
+DefDimRcs(name, len) ==
+    IF ~InDef THEN {"NC_ENOTINDEFINE"}
+    ELSE LET es == (IF len = 0 /\ HasUnlim THEN {"NC_EUNLIMIT"} ELSE {}) \cup (IF IdxOf(dims, name) # 0 THEN {"NC_ENAMEINUSE"} ELSE {})
+         IN IF es = {} THEN {"NC_NOERR"} ELSE es
+DefDimRc(name, len) == CHOOSE e \in DefDimRcs(name, len) : TRUE
 DefDim(name, len, rc) ==
-    /\ rc = DefDimRc(name, len)
+    /\ rc \in DefDimRcs(name, len)
     /\ IF rc = "NC_NOERR" THEN dims' = Append(dims, [name |-> name, len |-> len]) ELSE UNCHANGED dims
     /\ UNCHANGED <<gatts, vars, numrecs, mode, fresh, fillmode, fmt, saved, exists>>
     /\ hist' = H([c |-> "def_dim", name |-> name, len |-> len, rc |-> rc])
 
-DefVarRc(name, xtype, dimids) ==
-    IF ~InDef THEN "NC_ENOTINDEFINE"
-    ELSE IF ~TypeOKFor(fmt, xtype) THEN "NC_EBADTYPE"
-    ELSE IF \E i \in 1..Len(dimids) : dimids[i] < 0 \/ dimids[i] >= Len(dims) THEN "NC_EBADDIM"
-    ELSE IF \E i \in 2..Len(dimids) : dims[dimids[i] + 1].len = 0 THEN "NC_EUNLIMPOS"
-    ELSE IF IdxOf(vars, name) # 0 THEN "NC_ENAMEINUSE"
-    ELSE "NC_NOERR"
+DefVarRcs(name, xtype, dimids) ==
+    IF ~InDef THEN {"NC_ENOTINDEFINE"}
+    ELSE IF ~TypeOKFor(fmt, xtype) THEN {"NC_ESTRICTCDF2", "NC_EBADTYPE"}
+    ELSE IF \E i \in 1..Len(dimids) : dimids[i] < 0 \/ dimids[i] >= Len(dims) THEN {"NC_EBADDIM"}
+    ELSE LET es == (IF \E i \in 2..Len(dimids) : dims[dimids[i] + 1].len = 0 THEN {"NC_EUNLIMPOS"} ELSE {})
+                   \cup (IF IdxOf(vars, name) # 0 THEN {"NC_ENAMEINUSE"} ELSE {})
+         IN IF es = {} THEN {"NC_NOERR"} ELSE es
+DefVarRc(name, xtype, dimids) == CHOOSE e \in DefVarRcs(name, xtype, dimids) : TRUE
 DefVar(name, xtype, dimids, rc) ==
-    /\ rc = DefVarRc(name, xtype, dimids)
+    /\ rc \in DefVarRcs(name, xtype, dimids)
     /\ IF rc = "NC_NOERR"
          THEN vars' = Append(vars, [name |-> name, xtype |-> xtype, dimids |-> dimids, atts |-> <<>>,
                                     nofill |-> (fillmode = "NOFILL"), isnew |-> TRUE, data |-> <<>>])
@@ -94,20 +96,24 @@ DefVar(name, xtype, dimids, rc) ==
     /\ hist' = H([c |-> "def_var", name |-> name, xtype |-> xtype, dimids |-> dimids, rc |-> rc])
 
 (* put_att: t target, a = [name, xtype, n, vals].  In data mode only an overwrite that does not grow. *)
-PutAttRc(t, a) ==
-    IF t # -1 /\ (t < 0 \/ t >= Len(vars)) THEN "NC_ENOTVAR"
-    ELSE IF ~TypeOKFor(fmt, a.xtype) THEN "NC_EBADTYPE"
-    ELSE IF a.name = "_FillValue" /\ t = -1 THEN "NC_EGLOBAL"
-    ELSE IF a.name = "_FillValue" /\ a.xtype # vars[t + 1].xtype THEN "NC_EBADTYPE"
-    ELSE IF a.name = "_FillValue" /\ a.n # 1 THEN "NC_EINVAL"
-    ELSE IF a.name = "_FillValue" /\ ~vars[t + 1].isnew THEN "NC_ELATEFILL"
+(* acceptable codes (a set where the documentation leaves room) *)
+PutAttRcs(t, a) ==
+    IF t # -1 /\ (t < 0 \/ t >= Len(vars)) THEN {"NC_ENOTVAR"}
+    ELSE IF ~TypeOKFor(fmt, a.xtype) THEN {"NC_EBADTYPE", "NC_ESTRICTCDF2"}
+    ELSE IF a.name = "_FillValue" /\ t # -1 /\ a.xtype # vars[t + 1].xtype THEN {"NC_EBADTYPE"}
+    ELSE IF a.name = "_FillValue" /\ t # -1 /\ a.n # 1 THEN {"NC_EINVAL"}
+    \* a fill value may not be (re)defined for a variable that existed before the current redefinition
+    ELSE IF a.name = "_FillValue" /\ t # -1 /\ InDef /\ saved.on /\ t < Len(saved.vars) THEN {"NC_ELATEFILL"}
     ELSE LET i == IdxOf(AttsOf(t), a.name) IN
-         IF ~InDef /\ (i = 0 \/ AttXsz(a) > AttXsz(AttsOf(t)[i])) THEN "NC_ENOTINDEFINE"
-         ELSE "NC_NOERR"
+         IF ~InDef /\ (i = 0 \/ AttXsz(a) > AttXsz(AttsOf(t)[i])) THEN {"NC_ENOTINDEFINE"}
+         \* in data mode, after data may exist: the documentation names NC_ELATEFILL, the overwrite is harmless
+         ELSE IF a.name = "_FillValue" /\ t # -1 /\ ~InDef THEN {"NC_NOERR", "NC_ELATEFILL"}
+         ELSE {"NC_NOERR"}
+PutAttRc(t, a) == CHOOSE e \in PutAttRcs(t, a) : TRUE
 SetAtts(t, new) == IF t = -1 THEN gatts' = new /\ UNCHANGED vars
                    ELSE vars' = [vars EXCEPT ![t + 1].atts = new] /\ UNCHANGED gatts
 PutAtt(t, a, rc) ==
-    /\ rc \in {PutAttRc(t, a)}
+    /\ rc \in PutAttRcs(t, a)
     /\ IF rc = "NC_NOERR"
          THEN LET i == IdxOf(AttsOf(t), a.name) IN
               SetAtts(t, IF i = 0 THEN Append(AttsOf(t), a) ELSE [AttsOf(t) EXCEPT ![i] = a])
@@ -130,33 +136,33 @@ DelAtt(t, name, rc) ==
 RenameAttRc(t, old, new, oldlen, newlen) ==
     IF t # -1 /\ (t < 0 \/ t >= Len(vars)) THEN "NC_ENOTVAR"
     ELSE IF IdxOf(AttsOf(t), old) = 0 THEN "NC_ENOTATT"
-    ELSE IF IdxOf(AttsOf(t), new) # 0 THEN "NC_ENAMEINUSE"
+    ELSE IF IdxOf(AttsOf(t), new) # 0 /\ new # old THEN "NC_ENAMEINUSE"
     ELSE IF ~InDef /\ newlen > oldlen THEN "NC_ENOTINDEFINE"
     ELSE "NC_NOERR"
 RenameAtt(t, old, new, oldlen, newlen, rc) ==
-    /\ rc = RenameAttRc(t, old, new, oldlen, newlen)
+    /\ (rc = RenameAttRc(t, old, new, oldlen, newlen) \/ (new = old /\ IdxOf(AttsOf(t), old) # 0 /\ rc = "NC_ENAMEINUSE"))
     /\ IF rc = "NC_NOERR" THEN SetAtts(t, [AttsOf(t) EXCEPT ![IdxOf(AttsOf(t), old)].name = new]) ELSE UNCHANGED <<gatts, vars>>
     /\ UNCHANGED <<dims, numrecs, mode, fresh, fillmode, fmt, saved, exists>>
     /\ hist' = H([c |-> "rename_att", t |-> t, old |-> old, new |-> new, rc |-> rc])
 
 RenameVarRc(v, new, oldlen, newlen) ==
     IF v < 0 \/ v >= Len(vars) THEN "NC_ENOTVAR"
-    ELSE IF IdxOf(vars, new) # 0 THEN "NC_ENAMEINUSE"
+    ELSE IF IdxOf(vars, new) # 0 /\ IdxOf(vars, new) # v + 1 THEN "NC_ENAMEINUSE"
     ELSE IF ~InDef /\ newlen > oldlen THEN "NC_ENOTINDEFINE"
     ELSE "NC_NOERR"
 RenameVar(v, new, oldlen, newlen, rc) ==
-    /\ rc = RenameVarRc(v, new, oldlen, newlen)
+    /\ (rc = RenameVarRc(v, new, oldlen, newlen) \/ (v >= 0 /\ v < Len(vars) /\ vars[v + 1].name = new /\ rc = "NC_ENAMEINUSE"))
     /\ IF rc = "NC_NOERR" THEN vars' = [vars EXCEPT ![v + 1].name = new] ELSE UNCHANGED vars
     /\ UNCHANGED <<dims, gatts, numrecs, mode, fresh, fillmode, fmt, saved, exists>>
     /\ hist' = H([c |-> "rename_var", v |-> v, new |-> new, rc |-> rc])
 
 RenameDimRc(d, new, oldlen, newlen) ==
     IF d < 0 \/ d >= Len(dims) THEN "NC_EBADDIM"
-    ELSE IF IdxOf(dims, new) # 0 THEN "NC_ENAMEINUSE"
+    ELSE IF IdxOf(dims, new) # 0 /\ IdxOf(dims, new) # d + 1 THEN "NC_ENAMEINUSE"
     ELSE IF ~InDef /\ newlen > oldlen THEN "NC_ENOTINDEFINE"
     ELSE "NC_NOERR"
 RenameDim(d, new, oldlen, newlen, rc) ==
-    /\ rc = RenameDimRc(d, new, oldlen, newlen)
+    /\ (rc = RenameDimRc(d, new, oldlen, newlen) \/ (d >= 0 /\ d < Len(dims) /\ dims[d + 1].name = new /\ rc = "NC_ENAMEINUSE"))
     /\ IF rc = "NC_NOERR" THEN dims' = [dims EXCEPT ![d + 1].name = new] ELSE UNCHANGED dims
     /\ UNCHANGED <<gatts, vars, numrecs, mode, fresh, fillmode, fmt, saved, exists>>
     /\ hist' = H([c |-> "rename_dim", d |-> d, new |-> new, rc |-> rc])
@@ -169,7 +175,7 @@ CopyAtt(t1, name, t2, rc) ==
        ELSE IF i = 0 THEN rc = "NC_ENOTATT" /\ UNCHANGED <<gatts, vars>>
        ELSE IF t1 = t2 THEN rc = "NC_NOERR" /\ UNCHANGED <<gatts, vars>>
        ELSE LET a == AttsOf(t1)[i] IN
-            /\ rc = PutAttRc(t2, a)
+            /\ rc \in PutAttRcs(t2, a)
             /\ IF rc = "NC_NOERR"
                  THEN LET j == IdxOf(AttsOf(t2), name) IN
                       SetAtts(t2, IF j = 0 THEN Append(AttsOf(t2), a) ELSE [AttsOf(t2) EXCEPT ![j] = a])
@@ -196,7 +202,10 @@ DefVarFill(v, nofill, rc) ==
 (***************************************************************************)
 (* mode changes                                                            *)
 (***************************************************************************)
-WantsFill(v) == ~v.nofill \/ IdxOf(v.atts, "_FillValue") # 0
+(* a variable is filled at enddef iff its fill switch is on (the _FillValue attribute only selects the value);
+   an explicit record fill is also allowed for a variable that carries a _FillValue attribute *)
+WantsFill(v) == ~v.nofill
+MayFillRec(v) == ~v.nofill \/ IdxOf(v.atts, "_FillValue") # 0
 (* enddef: every NEW variable in fill mode is filled (fixed: entirely; record: the existing records);
    nothing else changes *)
 FilledVar(v) ==
@@ -270,7 +279,7 @@ PutData(v, r, toks, rc) ==
 
 FillRec(v, r, rc) ==
     /\ mode = "data" /\ v >= 0 /\ v < Len(vars)
-    /\ rc = IF ~IsRecVar(vars[v + 1]) THEN "NC_ENOTRECVAR" ELSE IF ~WantsFill(vars[v + 1]) THEN "NC_ENOTFILL" ELSE "NC_NOERR"
+    /\ rc = IF ~IsRecVar(vars[v + 1]) THEN "NC_ENOTRECVAR" ELSE IF ~MayFillRec(vars[v + 1]) THEN "NC_ENOTFILL" ELSE "NC_NOERR"
     /\ IF rc = "NC_NOERR"
          THEN LET nr == IF r + 1 > numrecs THEN r + 1 ELSE numrecs IN
               /\ numrecs' = nr
